@@ -39,6 +39,11 @@ fn init_logger() {
     log::set_max_level(log::LevelFilter::Info);
 }
 
+/// Worker processes run their executions inline (a forked child per execution costs more than the execution itself): before
+/// each one they record the schedule in flight, so that the root can name it if the execution ends the whole worker.
+static INLINE: std::sync::atomic::AtomicBool = std::sync::atomic::AtomicBool::new(false);
+static IN_FLIGHT: Mutex<Option<PathBuf>> = Mutex::new(None);
+
 /// csvdump runs carry --verify when the world starts with the coin's real genesis block (set by the callers).
 static VERIFY: std::sync::atomic::AtomicBool = std::sync::atomic::AtomicBool::new(false);
 
@@ -58,6 +63,12 @@ fn run_once_policy(data: &Path, dump: &Path, coin_name: &str, cb: &str, prefix: 
     // Every execution runs in a forked child: the subject's driver ends failed runs with process::exit(1) and a bug may abort
     // or crash - all of that is an observation (exit status / signal / what is in the dump folder), never the end of the explorer.
     // (At this point the process has a single thread: the scheduler's threads live only inside one execution.)
+    if INLINE.load(std::sync::atomic::Ordering::SeqCst) {
+        if let Some(p) = IN_FLIGHT.lock().unwrap().as_ref() {
+            let _ = std::fs::write(p, json!({"callback": cb, "schedule": prefix, "workers": workers, "policy": policy}).to_string());
+        }
+        return run_inline(data, dump, coin_name, cb, prefix, workers, policy);
+    }
     let _ = std::fs::remove_dir_all(dump);
     let out_path = dump.parent().unwrap().join("run.out.json");
     let _ = std::fs::remove_file(&out_path);
@@ -238,6 +249,8 @@ fn explore_subtree(data: &Path, dump: &Path, w: &WorldSpec, cb: &str, roots: &[V
 
 fn worker(spec_path: &str, out_path: &str) {
     init_logger();
+    INLINE.store(true, std::sync::atomic::Ordering::SeqCst);
+    *IN_FLIGHT.lock().unwrap() = Some(PathBuf::from(format!("{}.inflight", out_path)));
     VERIFY.store(true, std::sync::atomic::Ordering::SeqCst);
     let spec: Value = serde_json::from_str(&std::fs::read_to_string(spec_path).unwrap()).unwrap();
     let w = WorldSpec { name: spec["name"].as_str().unwrap().into(), coin: coin(spec["coin"].as_str().unwrap()).name, blocks: serde_json::from_value(spec["blocks"].clone()).unwrap() };
@@ -434,8 +447,15 @@ fn c13() -> Report {
         let mut per_cb: BTreeMap<String, (u64, u64, BTreeSet<String>)> = BTreeMap::new();
         for (mut ch, op) in children {
             let st = ch.wait();
-            if !st.map(|s| s.success()).unwrap_or(false) {
-                rep.machinery(format!("{}: worker failed", w.name));
+            if !st.as_ref().map(|s| s.success()).unwrap_or(false) {
+                // the execution in flight ended the worker process (the driver's process::exit, an abort, a crash): that
+                // schedule's outcome is "the run terminated", which differs from schedule []'s
+                let inflight: Value = std::fs::read_to_string(format!("{}.inflight", op.display())).ok().and_then(|t| serde_json::from_str(&t).ok()).unwrap_or(json!(null));
+                if inflight.is_null() {
+                    rep.machinery(format!("{}: worker failed before its first execution", w.name));
+                } else {
+                    rep.disagree("outcome-depends-on-schedule", format!("{} {} {}: schedule {} ended the process ({:?}) while schedule [] ran to completion", w.coin, w.name, inflight["callback"].as_str().unwrap_or("?"), inflight["schedule"], st.map(|s| s.to_string()).unwrap_or_default()), json!({"kind": "schedule", "world": {"name": w.name, "coin": w.coin, "blocks": w.blocks}, "callback": inflight["callback"], "schedule": inflight["schedule"]}));
+                }
                 continue;
             }
             let out: Value = serde_json::from_str(&std::fs::read_to_string(&op).unwrap_or_default()).unwrap_or(json!({}));
@@ -636,7 +656,7 @@ fn pool_part(rep: &mut Report, root: &Path) {
     big_block_part(rep, root);
 }
 
-/// A block with more transactions than any plausible batch size (4100 / 36 900), where the schedule tree cannot be
+/// A block with more transactions than any plausible batch size (4100 / 12 300), where the schedule tree cannot be
 /// enumerated: a stated FAMILY of schedules instead - after an empty prefix the scheduler always takes the first enabled
 /// action, always the last (newest task first, i.e. every region in reverse), or action (k * position + 1) mod n for k in
 /// {2, 7, 4099}; x 1, 2 and 3 workers (quick: four of these combinations); x all five callbacks. Exhaustive over that
@@ -644,7 +664,7 @@ fn pool_part(rep: &mut Report, root: &Path) {
 fn big_block_part(rep: &mut Report, root: &Path) {
     VERIFY.store(true, std::sync::atomic::Ordering::SeqCst);
     let c = coin("bitcoin");
-    let n_tx: usize = if is_thorough() { 36_900 } else { 4_100 };
+    let n_tx: usize = if is_thorough() { 12_300 } else { 4_100 };
     let mut cb = ChainBuilder::with_genesis(c);
     let mut txs = vec![coinbase(1, 3, vec![pay(1, 50 * COIN_VALUE)])];
     let mut prev: Option<[u8; 32]> = None;
